@@ -108,9 +108,16 @@ def patch_text(isa, lines):
 def make_patch(isa, spec, eid, rec):
     from gtirb_rewriting import Constraints, Patch
 
+    cons = spec.get("cons") or {}
+
     class ModelPatch(Patch):
         def __init__(self):
-            super().__init__(Constraints())
+            super().__init__(Constraints(
+                clobbers_flags=cons.get("flags", False),
+                clobbers_registers=set(cons.get("clobbers", [])),
+                scratch_registers=cons.get("scratch", 0),
+                align_stack=cons.get("align", False),
+                preserve_caller_saved_registers=cons.get("caller", False)))
             self.eid = eid
 
         def __str__(self):
@@ -125,7 +132,14 @@ def make_patch(isa, spec, eid, rec):
                 if rec.fault_kind == "raise":
                     raise InjectedFault(f"callback {rec.callbacks}")
                 return "this is not assembly $$$\n"
-            return patch_text(isa, spec["lines"])
+            text = patch_text(isa, spec["lines"])
+            if cons.get("scratch"):
+                # make the output depend on which registers were handed out
+                regs = ctx.scratch_registers
+                tmpl = {"x64": "movq %{r}, %{r}\n", "ia32":
+                        "movl %{r}, %{r}\n", "arm64": "mov {r}, {r}\n"}[isa]
+                text += "".join(tmpl.format(r=r) for r in regs)
+            return text
     return ModelPatch()
 
 
@@ -133,7 +147,7 @@ class Run:
     pass
 
 
-def register_edits(case, bu, ctx, rec, functions):
+def register_edits(case, bu, ctx, rec, functions, order=None):
     isa = case["isa"]
     fn_by_name = {}
     for f in functions:
@@ -142,7 +156,10 @@ def register_edits(case, bu, ctx, rec, functions):
             fn_by_name[s.name] = f
     for f in functions:
         fn_by_name.setdefault(f.get_name(), f)
-    for eid, e in enumerate(case["edits"]):
+    seq = list(enumerate(case["edits"]))
+    if order is not None:
+        seq = [(i, case["edits"][i]) for i in order]
+    for eid, e in seq:
         if e["op"] == "delfn":
             ctx.delete_function(fn_by_name[e["f"]])
             continue
@@ -195,7 +212,7 @@ def mirror_edits(case, lst):
 
 
 def run(case, fault_at=None, fault_kind="raise", seed=0, driver=None,
-        before_apply=None):
+        before_apply=None, register_order=None):
     install()
     global _current
     import random
@@ -219,7 +236,7 @@ def run(case, fault_at=None, fault_kind="raise", seed=0, driver=None,
     try:
         ctx = RewritingContext(m, functions)
         r.ctx = ctx
-        register_edits(case, bu, ctx, rec, functions)
+        register_edits(case, bu, ctx, rec, functions, register_order)
         if before_apply:
             before_apply(r)
         ctx.apply()
